@@ -33,7 +33,11 @@ RULE = (
     "{0,1,127,128,129,255} in six content styles (ASCII, ending with 10 so that a following 128-byte field gives 10 80 across "
     "the boundary, all 10, ending with 80 (U+0080), starting C2 80 / ending 00, 3- and 4-octet characters), all 16 flag "
     "combinations x device lengths (first header 10 followed by length 80), special texts (00 10 1F 7F U+0080 U+00FF "
-    "U+FFFF U+10FFFF ...) alone / as prefix / as suffix in each field position, None / '' in all combinations; refresh "
+    "U+FFFF U+10FFFF ...) alone / as prefix / as suffix in each field position, None / '' in all combinations; every "
+    "character codecs treat specially (U+FEFF, U+FFFE, U+FFFD, NUL, blank, tab, CR, LF, CRLF, NBSP, U+2028, U+8010 / U+1080 "
+    "(UTF-16 image 10 80 / 80 10), U+8000, U+0010, U+FFFF, non-BMP, the mis-decoded BOM) alone / at the start / in the middle "
+    "/ at the end / doubled / as a run filling the field, in every ARS text field and in the TMS text, and mixed into the "
+    "random texts; refresh "
     "times 1..127 and all failure reasons x trailer x flags are complete in the grid.  Distinct by case hash; non-trivial: TMS sequence >= 32 or address >= 128 octets or an "
     "optional header present; ARS optional/second header present or an identifier >= 128 bytes or CSBK trailer."
 )
@@ -260,6 +264,18 @@ def ars_classes(c):
 
 # ---------------------------------------------------------------------------------------------- strategies / drivers
 
+# characters that text codecs treat specially (BOM / byte-order marks, replacement character, NUL, white space, line ends,
+# non-BMP) and characters whose UTF-16-LE image contains octets that mean something in the frame (10 80 trailer, 00 00,
+# length / header octets)
+CODEC_SPECIALS = ["\ufeff", "\ufffe", "\ufffd", "\x00", " ", "\t", "\r", "\n", "\r\n", "\u00a0", "\u2028", "\u8010", "\u1080", "\u8000", "\u0010", "\uffff", "\u00ff", "\u0080",
+                  "\U00010000", "\U0001f600", "\U0010ffff", "\u00ef\u00bb\u00bf"]
+
+
+def special_text_shapes(x: str):
+    """x alone, at the start, in the middle, at the end, doubled, and as a long homogeneous run"""
+    return [x, x + "a", "a" + x + "b", "ab" + x, x + x, x + "a" + x, " " + x, x + " "]
+
+
 SN_EDGES = [0, 1, 30, 31, 32, 33, 63, 64, 65, 95, 96, 97, 126, 127]
 
 
@@ -269,8 +285,10 @@ def _tms_strategy():
     addr = st.one_of(st.binary(max_size=6), st.sampled_from([0, 1, 127, 128, 129, 254, 255]).flatmap(lambda n: st.binary(min_size=n, max_size=n)), st.binary(max_size=255)).map(bytes.hex)
     sn = st.one_of(st.sampled_from(SN_EDGES), st.integers(0, 127))
     bmp = st.characters(max_codepoint=0xFFFF, exclude_categories=["Cs"])
+    spiced = st.one_of(st.sampled_from(CODEC_SPECIALS), st.sampled_from(CODEC_SPECIALS), st.characters(min_codepoint=0x20, max_codepoint=0x7E), bmp)
     text = st.one_of(st.just(""), st.text(bmp, min_size=1, max_size=20), st.text(bmp, min_size=21, max_size=200), st.text(min_size=1, max_size=100),
-                     st.sampled_from([51, 128, 199, 200]).flatmap(lambda n: st.text(bmp, min_size=n, max_size=n)))
+                     st.sampled_from([51, 128, 199, 200]).flatmap(lambda n: st.text(bmp, min_size=n, max_size=n)),
+                     st.lists(spiced, min_size=1, max_size=12).map("".join), st.lists(spiced, min_size=1, max_size=100).map(lambda l: "".join(l)[:100]))
     message = text.map(lambda s: s.encode("utf-16-le").hex())
     flags = st.tuples(st.booleans(), st.booleans(), st.booleans())
 
@@ -302,6 +320,8 @@ def _ars_strategy():
         st.none(), st.just(""), st.text(max_size=12), st.text(st.characters(min_codepoint=0x30, max_codepoint=0x39), min_size=1, max_size=10),
         st.sampled_from([1, 127, 128, 254, 255]).flatmap(lambda n: st.text(st.characters(min_codepoint=0x20, max_codepoint=0x7E), min_size=n, max_size=n)),
         st.text(max_size=255).map(_fit255),
+        st.lists(st.one_of(st.sampled_from(CODEC_SPECIALS), st.sampled_from(CODEC_SPECIALS), st.characters(min_codepoint=0x20, max_codepoint=0x7E), st.characters()), min_size=1, max_size=10).map("".join),
+        st.lists(st.one_of(st.sampled_from(CODEC_SPECIALS), st.characters(min_codepoint=0x20, max_codepoint=0x7E)), min_size=1, max_size=120).map("".join).map(_fit255),
     )
     flags = st.tuples(st.booleans(), st.booleans(), st.booleans(), st.booleans())
 
@@ -376,6 +396,13 @@ def tms_boundary_cases():
         for k, msg in enumerate([bytes([x, x]), bytes([0x41, 0, x, x]), bytes([x, x, 0x41, 0]), bytes([x, 0]), bytes([0, x]), bytes([0x10, 0x80]), bytes([x, x]) * 100, bytes([0x10, 0x80, x, x]), bytes([x, x, 0x10, 0x80])]):
             i += 1
             add("text_content", "text", i, bytes([x])[: k % 2], sn=[0, 16, 31, 32, 64, 127][k % 6], encoding=[None, "UCS2_LE"][k % 2], message=msg.hex())
+    # texts with the characters codecs treat specially: alone / start / middle / end / doubled / long homogeneous runs
+    for x in CODEC_SPECIALS:
+        per = 2 if ord(x[0]) > 0xFFFF else 1
+        shapes = special_text_shapes(x) + [x * (100 // (per * len(x))), x * (200 // (per * len(x))), "a" * 99 + x, x + "a" * (199 - per * len(x))]
+        for k, txt in enumerate(shapes):
+            i += 1
+            add("text_codec_special", "text", i, _pat([0, 1, 2, 128][k % 4], i), sn=[0, 31, 32, 127][k % 4], encoding=[None, "UCS2_LE", "UCS2_LE"][k % 3], message=txt.encode("utf-16-le").hex())
     # sequence numbers: complete range x address length x flag combinations (grid covers the short-address part completely)
     for sn in range(128):
         for k, la in enumerate([0, 1, 127, 128, 255]):
@@ -447,6 +474,21 @@ def ars_boundary_cases():
                     kw2 = {"device": None, "user": None, "password": None}
                     kw2[pos] = var
                     add("special_content_alone:" + pos, ["user_reg", "device_reg"][i % 2], i + 5, event=[None, "INITIAL"][i % 2], csbk=csbk, **kw2)
+    # the characters codecs treat specially (BOM, U+FFFE, U+FFFD, NUL, blanks, CR / LF, non-BMP, the mis-decoded BOM "ï»¿"),
+    # alone / start / middle / end / doubled, and as runs filling the field, in each field position
+    for x in CODEC_SPECIALS:
+        nb = len(x.encode("utf-8"))
+        shapes = special_text_shapes(x) + [x * (127 // nb), x * (128 // nb), x * (255 // nb), "a" * (255 - nb) + x, x + "a" * (255 - nb)]
+        for k, var in enumerate(shapes):
+            for pos in ("device", "user", "password"):
+                i += 1
+                kw = {"device": "11", "user": "9", "password": "p"}
+                kw[pos] = var
+                add("codec_special:" + pos, ["device_reg", "user_reg"][i % 2], i, event=[None, "REFRESH", "INITIAL"][i % 3], csbk=bool(k % 2), **kw)
+        # all three fields at once, and the special field between two empty ones
+        i += 1
+        add("codec_special:all_fields", "user_reg", i, event="DONT_CARE", device=x, user=x + "u", password="p" + x, csbk=bool(i % 2))
+        add("codec_special:alone", "device_reg", i + 1, event=None, device=None, user=x, password=None, csbk=bool(i % 2))
     # None / "" / absent in every combination
     for d in (None, "", "1"):
         for u in (None, "", "2"):
